@@ -80,6 +80,13 @@ def _worker(conn, optset, extra, fn_name, jobs, job_timeout, init_name):
             conn.close()
         except Exception:
             pass
+        try:
+            # GASOL's scratch directory of this process (atexit handlers do not run with os._exit)
+            import shutil
+            import global_params.paths as _paths
+            shutil.rmtree(_paths.gasol_path, ignore_errors=True)
+        except Exception:
+            pass
         os._exit(0)
 
 
